@@ -46,6 +46,7 @@ RULE = ('case = one code object (library: class,size,deformation,kwargs; '
 ASSUMPTIONS = ['supported size family = pv/families.py']
 REQUIRED_COUNTERS = ['rows_compared', 'bsf_roundtrips', 'css_objects',
                      'history_steps_checked', 'unsorted_csr_rows',
+                     'csr_rows_with_stored_zeros',
                      'user_defined_codes', 'hash_seed_children',
                      'y_operators_roundtripped']
 
@@ -179,6 +180,20 @@ def check_object(code, desc, out, mech, rng, deep=True):
                 {'op': {str(k): p for k, p in list(op.items())[:8]},
                  'back': {str(k): p for k, p in list(back.items())[:8]},
                  'indices': row.indices[:16]})
+        # csr row formed as a mod-2 sum in sparse form (the library's idiom
+        # `s = a + b; s.data %= 2`): carries explicitly stored zeros
+        pa = (rng.random(2 * n) < 0.4).astype('uint8')
+        pb = pa ^ np.asarray(v, dtype='uint8')
+        srow = csr_matrix(pa.reshape(1, -1)) + csr_matrix(pb.reshape(1, -1))
+        srow.data %= 2
+        back = code.from_bsf(srow.tocsr())
+        out.count('bsf_roundtrips')
+        out.count('csr_rows_with_stored_zeros')
+        if back != op:
+            bad('from_bsf/csr-stored-zeros',
+                'from_bsf(sparse mod-2 sum with stored zeros) != op',
+                {'op': {str(k): p for k, p in list(op.items())[:8]},
+                 'back': {str(k): p for k, p in list(back.items())[:8]}})
         # vector -> operator -> vector
         vec = (rng.random(2 * n) < dens / 2).astype('uint8')
         op2 = code.from_bsf(vec)
